@@ -209,6 +209,10 @@ fn requested(bytes: &[u8]) -> Value {
 			}
 			let n_extreq_attrs = v["attrs"].as_array().unwrap().iter().filter(|a| sval(a, "oid") == "1.2.840.113549.1.9.14").count();
 			json!({"k": "ok", "subject": v["subject"], "subjectMulti": v["subjectMulti"], "spki": v["spki"]["raw"], "keyRaw": v["spki"]["key"],
+				"subjectCps": Value::Array(v["subject"].as_array().unwrap().iter().map(|e| {
+					let t = String::from_utf8_lossy(&crate::der::unhex(&sval(e, "val"))).to_string();
+					Value::Array(t.chars().map(|c| json!(c as u32)).collect())
+				}).collect()),
 				"nExtReqAttrs": n_extreq_attrs, "nExtReqValues": v["extReqs"].as_array().unwrap().len(),
 				"extOids": ext_oids, "sans": sans, "ku": ku, "eku": eku, "undecodableExt": undecodable_ext, "version": v["version"]})
 		},
@@ -375,6 +379,9 @@ pub fn run(out_path: &str, tier: &str) {
 			("ku-twice", subj.clone(), vec![ext_req_attr(&[enc_seq(&[ku1.clone(), ku2.clone()])])]),
 			("subject-repeated-type", name_der(&[vec![("2.5.4.11", 0x0c, "a")], vec![("2.5.4.11", 0x0c, "b")]]), vec![]),
 			("subject-multivalued-rdn", name_der(&[vec![("2.5.4.3", 0x0c, "x"), ("2.5.4.10", 0x0c, "y")]]), vec![]),
+			("subject-printable-outside-alphabet", name_der(&[vec![("2.5.4.10", 0x13, "a_b@c*")], vec![("2.5.4.3", 0x0c, "x")]]), vec![]),
+			("subject-ia5-outside-alphabet", name_der(&[vec![("2.5.4.10", 0x16, "caf\u{e9}")]]), vec![]),
+			("subject-teletex-control-character", name_der(&[vec![("2.5.4.10", 0x14, "a\u{1}b")]]), vec![]),
 			("unknown-attribute", subj.clone(), vec![enc_seq(&[enc_oid("1.2.840.113549.1.9.7"), enc_set(&[enc_tlv(0x0c, b"pw")])])]),
 			("critical-san", subj.clone(), vec![ext_req_attr(&[enc_seq(&[ext("2.5.29.17", true, &san_dns(&["c.d"]))])])]),
 			("empty-extension-request", subj.clone(), vec![ext_req_attr(&[enc_seq(&[])])]),
